@@ -18,7 +18,7 @@ func init() {
 	rt.Register("c07probe", Probe)
 }
 
-var stdDeadlines = deadlines{Step: 90 * time.Second, Stop: 120 * time.Second, Leak: 60 * time.Second, Quiet: 3 * time.Second}
+var stdDeadlines = deadlines{Step: 90 * time.Second, Stop: 120 * time.Second, Leak: 60 * time.Second, Quiet: 3 * time.Second, Settle: time.Second}
 
 // kind of a real node for the specification's topology record
 func nodeKind(name string) string {
@@ -163,7 +163,7 @@ func emit(t *rt.Trace, sc scen, a *attempt, o *outcome, attemptNo int) {
 	if sc.Racing > 0 {
 		t.Event("Accept", rt.M{"seqs": rangesAny(racing)})
 	}
-	if o.NodeFailed && !failedBefore {
+	if (o.NodeFailed || o.FaultFired) && !failedBefore {
 		// not injected = the node failed because of the stop itself
 		t.Event("NodeFailed", rt.M{"injected": injected})
 	}
@@ -414,7 +414,7 @@ func runChild(r *rt.Run) error {
 				return err
 			}
 			ta := time.Now()
-			o, a, err := runAttempt(sc, post, stdDeadlines)
+			o, a, err := guardedAttempt(sc, post, stdDeadlines)
 			if err != nil {
 				return fmt.Errorf("scenario %s attempt %d: %v", sc.key(), i, err)
 			}
@@ -425,6 +425,7 @@ func runChild(r *rt.Run) error {
 			cnt.attempts++
 			if o.Hung {
 				cnt.hung++
+				n = i + 1 // a hung stop leaves a dead TaskMaster behind and costs seconds: once per scenario is enough
 			}
 			if o.Panicked != "" {
 				cnt.panicked++
@@ -457,6 +458,28 @@ func runChild(r *rt.Run) error {
 	}
 	finish()
 	return nil
+}
+
+// guardedAttempt: the driver itself must never hang.  Every wait inside runAttempt has its own deadline;
+// should one be missing, this watchdog ends the run as a broken check (exit 2) with a goroutine dump
+// instead of leaving it to an outer timeout.
+func guardedAttempt(sc scen, post *postSink, dl deadlines) (*outcome, *attempt, error) {
+	type res struct {
+		o   *outcome
+		a   *attempt
+		err error
+	}
+	c := make(chan res, 1)
+	go func() {
+		o, a, err := runAttempt(sc, post, dl)
+		c <- res{o, a, err}
+	}()
+	select {
+	case r := <-c:
+		return r.o, r.a, r.err
+	case <-time.After(2*dl.Step + 2*dl.Stop + dl.Leak + time.Minute):
+		return nil, nil, fmt.Errorf("attempt did not finish (driver bug or dead machine)\n%s", allStacks())
+	}
 }
 
 // finishPartial keeps a meta.json that describes the trace written so far, so that a parent can use
